@@ -15,6 +15,7 @@
 #   See the License for the specific language governing permissions and
 #   limitations under the License.
 #
+import re
 from fractions import Fraction
 from io import StringIO
 from typing import Any, Iterator, Optional, Type, cast
@@ -24,6 +25,11 @@ import pysmt.operators as op
 from pysmt.walkers import TreeWalker
 from pysmt.walkers.generic import handles
 from pysmt.utils import quote
+
+_hr_identifier_prog = re.compile(r"^[A-Za-z_][A-Za-z0-9_]*$")
+_hr_reserved = frozenset(["True", "False", "xor", "bv2nat", "bvcomp", "ROR", "ROL",
+                          "ZEXT", "SEXT", "ToReal", "Int", "Real", "Bool",
+                          "forall", "exists"])
 from pysmt.constants import is_pysmt_fraction, is_pysmt_integer
 from pysmt.fnode import FNode
 
@@ -80,7 +86,14 @@ class HRPrinter(TreeWalker):
         self.write(")")
 
     def walk_symbol(self, formula: FNode):
-        self.write(quote(formula.symbol_name(), style="'"))
+        name = formula.symbol_name()
+        if _hr_identifier_prog.match(name) and name not in _hr_reserved:
+            self.write(name)
+        else:
+            # Anything the parser of the human-readable syntax would not
+            # read back as one identifier (operator characters, leading
+            # digits, reserved words) is quoted
+            self.write("'%s'" % name.replace("\\", "\\\\").replace("'", "\\'"))
 
     def walk_function(self, formula: FNode) -> Iterator[FNode]:
         yield formula.function_name()
